@@ -36,7 +36,9 @@ pub fn run_space(
     pool::par_for(space.cases.len(), |i| {
         let case = &space.cases[i];
         let input = case.bytes();
+        crate::report::case_begin(&format!("build space={} ({}) case={} input_len={} input_head_hex={} opts={:?}", space_idx, space.name, i, input.len(), crate::util::hex(&input[..input.len().min(48)]), case.opts));
         let out = subject::build(&input, &case.opts);
+        crate::report::case_end();
         let mut findings = core::check_outcome(&out, &input, &case.opts);
         let digest = match &out {
             Outcome::Ok(q) => {
